@@ -25,7 +25,7 @@
       field collection guarantees). *)
 From Coq Require Import List NArith ZArith Bool.
 From ApiFu Require Import Base.Sexp Fut.Plan Fut.Future Fut.ExecAsync Fut.ExecSync Fut.Denote Fut.SubPerm
-     Fut.Live Fut.AsyncWrap Fut.AsyncRun Fut.FutSpec Fut.FutProofs.
+     Fut.Live Fut.AsyncWrap Fut.AsyncRun Fut.FutSpec Fut.VisibleProofs Fut.SyncMust Fut.FutProofs.
 Import ListNotations.
 
 (** ** the property *)
@@ -98,12 +98,97 @@ Theorem C02_async_data_or_error : forall md sigma fuel jfuel root,
   exists r, run fixed_flags sigma md fuel jfuel root = Done r /\ (r_data r = None -> r_errors r <> []).
 Proof. exact data_or_error. Qed.
 
+(** ** "the same error for every null left visible in that data"
+
+    What holds for every request: the landing sites and the visible failure-nulls are the same
+    for every choice of asynchronous resolvers, and each visible failure-null receives an error
+    admissible at its site (and, by [conforms], only one). *)
+Theorem C02_error_sites_independent : forall root1 root2 d1 e1 d2 e2,
+  same_outcomes root1 root2 ->
+  conforms root1 d1 e1 -> conforms root2 d2 e2 ->
+  sites root1 = sites root2 /\ visible_nulls root1 = visible_nulls root2 /\
+  forall x, In x (visible_nulls root1) ->
+    (exists a, In a e1 /\ In a (snd x)) /\ (exists b, In b e2 /\ In b (snd x)).
+Proof. exact error_sites_independent. Qed.
+
+(** The literal statement, under the exclusion of the known finding admissible-error-differs
+    (every visible failure-null admits exactly one error): any two runs report the same error for
+    every visible failure-null, and it is the only error that can land there. *)
+Theorem C02_same_error_for_every_null : forall md root1 root2 sigma1 sigma2 fuel1 fuel2 jfuel,
+  excl_admissible_error_differs root1 = false ->
+  same_outcomes root1 root2 ->
+  fair sigma1 -> fair sigma2 ->
+  count_async root1 <= fuel1 -> count_async root2 <= fuel2 -> resp_depth root1 < jfuel ->
+  exists r1 r2,
+    run fixed_flags sigma1 md fuel1 jfuel root1 = Done r1 /\
+    run fixed_flags sigma2 md fuel2 jfuel root2 = Done r2 /\
+    r_data r1 = r_data r2 /\
+    forall x, In x (visible_nulls root1) ->
+      exists e, snd x = [e] /\ In e (r_errors r1) /\ In e (r_errors r2) /\
+                (forall e', lands e' x -> e' = e).
+Proof. exact same_error_when_single_candidate. Qed.
+
+(** The synchronous reference itself conforms to its plan (in particular it reports an error for
+    every failure-null it leaves visible), and under the same exclusion every run reports, for
+    every visible failure-null, exactly the error the reference reports. *)
+Theorem C02_sync_reference_conforms : forall root,
+  conforms root (sr_data (run_sync root)) (sr_errors (run_sync root)).
+Proof. exact run_sync_conforms. Qed.
+
+Theorem C02_same_error_as_reference : forall md sigma fuel jfuel root,
+  excl_admissible_error_differs root = false ->
+  fair sigma -> count_async root <= fuel -> resp_depth root < jfuel ->
+  exists r, run fixed_flags sigma md fuel jfuel root = Done r /\
+    r_data r = sr_data (run_sync root) /\
+    forall x, In x (visible_nulls root) ->
+      exists e, snd x = [e] /\ In e (r_errors r) /\ In e (sr_errors (run_sync root)).
+Proof. exact same_error_as_reference. Qed.
+
+(** Without the exclusion the literal statement is false of the faithful model, as it is of the
+    code (oracle key admissible-error-differs, a [known:] finding): the same request, the same
+    outcomes, one resolver made asynchronous — a different error for the same null … *)
+Theorem C02_same_error_refuted :
+  exists root1 root2 sigma r1 r2,
+    wf root1 = true /\ same_outcomes root1 root2 /\ fair sigma /\
+    run fixed_flags sigma Query (count_async root1) (S (resp_depth root1)) root1 = Done r1 /\
+    run fixed_flags sigma Query (count_async root2) (S (resp_depth root1)) root2 = Done r2 /\
+    r_data r1 = r_data r2 /\
+    exists x e1 e2, In x (visible_nulls root1) /\
+      r_errors r1 = [e1] /\ r_errors r2 = [e2] /\ lands e1 x /\ lands e2 x /\ e1 <> e2.
+Proof. exact same_error_refuted. Qed.
+
+(** … and one request under two fulfilment orders. *)
+Theorem C02_same_error_refuted_by_schedule :
+  exists root sigma1 sigma2 r1 r2,
+    wf root = true /\ fair sigma1 /\ fair sigma2 /\
+    run fixed_flags sigma1 Query (count_async root) (S (resp_depth root)) root = Done r1 /\
+    run fixed_flags sigma2 Query (count_async root) (S (resp_depth root)) root = Done r2 /\
+    r_data r1 = r_data r2 /\
+    exists x e1 e2, In x (visible_nulls root) /\
+      r_errors r1 = [e1] /\ r_errors r2 = [e2] /\ lands e1 x /\ lands e2 x /\ e1 <> e2.
+Proof. exact same_error_refuted_by_schedule. Qed.
+
 (** ** supporting statements *)
 
 (** [conforms] does not see which resolvers are asynchronous. *)
 Theorem C02_conforms_tag_blind : forall a b d errs,
   same_outcomes a b -> conforms a d errs -> conforms b d errs.
 Proof. exact conforms_same_outcomes. Qed.
+
+(** The structural definition of the visible failure-nulls agrees with the reading of the data the
+    oracle uses: a site (with a non-empty list of admissible errors) at whose response path the
+    data shows null.  Hence [conforms] can equally be stated by reading the data. *)
+Theorem C02_visible_nulls_agree : forall root, wf root = true ->
+  forall x, In x (sites root) ->
+    (visible_failure_null (data_shape root) x = true <-> In x (visible_nulls root)).
+Proof. exact visible_nulls_agree. Qed.
+
+Theorem C02_conforms_by_reading : forall root d errs, wf root = true ->
+  (conforms root d errs <->
+   d = sr_data (run_sync root) /\
+   (exists ls, Forall2 lands errs ls /\ sub_perm ls (sites root)) /\
+   forall x, In x (sites root) -> visible_failure_null d x = true -> exists e, In e errs /\ lands e x).
+Proof. exact conforms_by_reading. Qed.
 
 (** The reference's own errors land one per site, and its data has the declared shape. *)
 Theorem C02_sync_reference_lands : forall root,
@@ -119,6 +204,21 @@ Proof. exact sync_reference_lands. Qed.
 Theorem C02_poll_sound : forall root p,
   StepSpec (fun G s => LiveS G s root p) (spec_I (VObj root) p).
 Proof. exact poll_sound. Qed.
+
+(** The idle-handler contract: an idle call that finds no outstanding promise ends the model run
+    as [Stuck] whatever the handler does; [wait] returns a ready future without any idle call; no
+    run under a fair handler is [Stuck] (or out of fuel).  Hence the executor calls the idle handler
+    only while a promise is outstanding and never after completion. *)
+Theorem C02_idle_needs_outstanding : forall sigma s, outstanding s = [] -> idle sigma s = None.
+Proof. exact idle_needs_outstanding. Qed.
+
+Theorem C02_wait_ready_no_idle : forall fl sigma fuel r s, wait fl sigma fuel (Ready r) s = Done (r, s).
+Proof. exact wait_ready_no_idle. Qed.
+
+Theorem C02_run_never_stuck : forall md sigma fuel jfuel root,
+  fair sigma -> count_async root <= fuel -> resp_depth root < jfuel ->
+  run fixed_flags sigma md fuel jfuel root <> Stuck /\ run fixed_flags sigma md fuel jfuel root <> OutOfFuel.
+Proof. exact run_never_stuck. Qed.
 
 (** The scheduler family the correspondence check runs the model under (an idle round fulfils
     the outstanding promises of minimal rank) is fair, so the theorems above speak about every
@@ -159,9 +259,20 @@ Print Assumptions C02_conforms_no_duplicate.
 Print Assumptions C02_async_rounds_bounded.
 Print Assumptions C02_async_no_blank_key.
 Print Assumptions C02_async_data_or_error.
+Print Assumptions C02_error_sites_independent.
+Print Assumptions C02_same_error_for_every_null.
+Print Assumptions C02_sync_reference_conforms.
+Print Assumptions C02_same_error_as_reference.
+Print Assumptions C02_same_error_refuted.
+Print Assumptions C02_same_error_refuted_by_schedule.
 Print Assumptions C02_conforms_tag_blind.
+Print Assumptions C02_visible_nulls_agree.
+Print Assumptions C02_conforms_by_reading.
 Print Assumptions C02_sync_reference_lands.
 Print Assumptions C02_poll_sound.
+Print Assumptions C02_idle_needs_outstanding.
+Print Assumptions C02_wait_ready_no_idle.
+Print Assumptions C02_run_never_stuck.
 Print Assumptions C02_check_schedules_fair.
 Print Assumptions C02_refuted_when_mapok_drops_error.
 Print Assumptions C02_refuted_when_after_ranges_by_value.
